@@ -28,6 +28,19 @@ def roview(rep, model, names, rule='EFF-ROVIEW'):
             rep.ok(rule, name, f'{f.path}:{f.node.lineno} {name}', found=f'no write to a read-only view (armed={ro})')
 
 
+def args_intact(rep, model, names, rule='ARGS-INTACT', params=None, why=''):
+    """the named functions write through none of their arguments (or none of ``params``), by the closed effect summary"""
+    summ, det, rounds, ro = effects(model)
+    for name in names:
+        f = model.find(name)
+        hits = sorted((ln, c, via) for (w, ln, c, via) in det[f.qual].mut if w[0] == 'P' and (params is None or w[1] in params))
+        if hits:
+            rep.violation(rule, name, f'{f.path}:{hits[0][0]} {name}', expected='no write through an argument' + (f' ({why})' if why else ''),
+                          found='; '.join(f'{c}' + (f' [via {v}]' if v else '') for _, c, v in hits[:3]), key=f'{rule}@{f.mod}:{name}')
+        else:
+            rep.ok(rule, name, f'{f.path}:{f.node.lineno} {name}', found='closed effect summary has no write through ' + ('an argument' if params is None else '/'.join(sorted(params))))
+
+
 def lost(rep, model, names, rule='EFF-LOST'):
     summ, det, rounds, ro = effects(model)
     for name in names:
